@@ -87,6 +87,7 @@ class Shard:
         self.log = os.path.join(rundir, "%s.%d.log" % (passname, i))
         self.proc = None
         self.restarts = 0
+        self.stalls = 0
         self.synthetic = []  # violation/inconclusive records created by the driver
         self.done = False
         self.last_size = -1
@@ -171,6 +172,13 @@ class Shard:
                     self.synthetic.append({"t": "E", "family": r["family"], "idx": r["idx"], "params": r.get("params"),
                                            "res": {"verdict": verdict, "why": why, "nontrivial": True,
                                                    "witness": {"goroutines": tail[-60000:]}}})
+                self.stalls += 1
+                if self.stalls >= 2:
+                    # two cases of this shard have hung already: do not spend the
+                    # stall timeout on every remaining case
+                    self.synthetic.append({"t": "I", "family": "driver", "info": {"shard_abandoned_after_stalls": self.stalls, "shard": self.i}})
+                    self.done = True
+                    return True
                 return self._maybe_restart(bool(inf))
             return False
         self.logf.close()
